@@ -120,6 +120,8 @@ func (c *fctx) call(t *ast.CallExpr) string {
 		return "(Go.parseIP " + arg(0) + ")"
 	case "strings.Split":
 		return "(Go.stringsSplit " + arg(0) + " " + arg(1) + ")"
+	case "(time.Duration).Nanoseconds":
+		return recv()
 	case "(net.IP).DefaultMask":
 		return "(Go.ipDefaultMask " + recv() + ")"
 	case "math/rand.Perm":
